@@ -161,25 +161,45 @@ def nat_copy(params, model):
 
 
 # ---------------------------------------------------------------------------- rechunk on load
-def run_onload(L, obj, source_rows, base):
+def _iter(st, target, proc, workers, sched):
+    kw = dict(progress_bar=False)
+    if proc == "single":
+        return list(st.get_iter(RUN, target, processor="single_thread", **kw))
+    if not sched:
+        # native replay: real threads, and a real thread pool for loading when workers > 1
+        return list(st.get_iter(RUN, target, processor="threaded_mailbox", max_workers=workers, **kw))
+    from symx import conc
+    from harness import mbox
+
+    # symbolic run: loader / plugin / consumer threads under the deterministic scheduler (a thread pool is real OS
+    # threads outside the scheduler: workers > 1 is exercised by the native replay of the path witnesses only)
+    with mbox.SchedRun(conc.POLICIES["rr"]) as s:
+        try:
+            return list(st.get_iter(RUN, target, processor="threaded_mailbox", **kw))
+        finally:
+            s.finish()
+
+
+def run_onload(L, obj, source_rows, base, proc="single", workers=None):
     import strax
 
     a = os.path.join(base, "a")
     st = ctx.make_context(_plugins(L, obj), storage=[strax.DataDirectory(a)])
     st.make(RUN, "src", processor="single_thread")
     P2 = _plugins(L, obj, rechunk_on_load=True, source_mb=_tsm(source_rows, obj))
-    st2 = ctx.make_context(P2, storage=[strax.DataDirectory(a, readonly=True)], forbid_creation_of=("src",))
-    src_chunks = list(st2.get_iter(RUN, "src", processor="single_thread", progress_bar=False))
-    m1 = st2.get_array(RUN, "m1", processor="single_thread", progress_bar=False)
+    st2 = ctx.make_context(P2, storage=[strax.DataDirectory(a, readonly=True)], forbid_creation_of=("src",), timeout=5)
+    src_chunks = _iter(st2, "src", proc, workers, obj)
+    m1c = _iter(st2, "m1", proc, workers, obj)
+    m1 = np.concatenate([c.data for c in m1c]) if m1c else np.zeros(0, ctx.dt(ctx.VAL, obj))
     return src_chunks, m1
 
 
-def sym_onload(layout, source_rows=1):
+def sym_onload(layout, source_rows=1, proc="single", workers=None):
     S = fresh_int("S", 0, H.T_MAX); E = fresh_int("E", 0, H.T_MAX)
     L = ctx.sym_layout("src_", layout, S, E=E)
     base = tempfile.mkdtemp(prefix="verif_c16_")
     try:
-        src_chunks, m1 = run_onload(L, True, source_rows, base)
+        src_chunks, m1 = run_onload(L, True, source_rows, base, proc)
         return _check_onload(src_chunks, m1, L, S, E)
     finally:
         shutil.rmtree(base, ignore_errors=True)
@@ -200,7 +220,12 @@ def nat_onload(params, model):
     try:
         with warnings.catch_warnings():
             warnings.simplefilter("ignore")
-            src_chunks, m1 = run_onload(L, False, params.get("source_rows", 1), base)
+            try:
+                src_chunks, m1 = run_onload(L, False, params.get("source_rows", 1), base, params.get("proc", "single"),
+                                            params.get("workers"))
+            except Exception as e:  # noqa
+                return {"ok": False, "detail": f"rechunk on load raised {type(e).__name__}: {e}",
+                        "label": f"onload:raised {type(e).__name__}"}
         label = core.concrete_run(lambda: _check_onload(src_chunks, m1, L, S, E), model)
         return {"ok": label is None, "detail": label or "rechunk on load preserves the data", "label": label}
     finally:
@@ -351,7 +376,9 @@ OBLIGATIONS = [
     # get_splits only cuts a stored chunk of >= source_rows + 2 rows: the [3] / [1, 3] / [4] layouts are the ones
     # where rechunk-on-load really splits
     Ob("onload", sym_onload, lambda tier: [dict(layout=l, source_rows=r) for l in _lays(tier) +
-                                           ([[3], [1, 3]] if tier == "quick" else [[3], [1, 3], [4], [3, 2]]) for r in (1, 2)],
+                                           ([[3], [1, 3]] if tier == "quick" else [[3], [1, 3], [4], [3, 2]]) for r in (1, 2)] +
+       [dict(layout=[3], source_rows=1, proc="threaded"), dict(layout=[1, 3], source_rows=1, proc="threaded", workers=2),
+        dict(layout=[2, 1], source_rows=2, proc="threaded", workers=2)],
        nat_onload, setup=_setup, witnesses=1),
     Ob("standalone", sym_standalone, lambda tier: [dict(layout=l, replace=rp, target=t) for l in _lays(tier)
                                                    for rp in (False, True) for t in (1, 2)] +
